@@ -330,6 +330,10 @@ def vf2pp_all_isomorphisms(
             
     elif not subgraph:
         feasibility_funcs.append(_graph_feasibility)
+        if any("reaction" in attrs
+               for g in (g1, g2)
+               for attrs in g.bonds_with_attributes.values()):
+            feasibility_funcs.append(_bond_change_feasibility(g1, g2))
         if stereo:
             feasibility_funcs.append(_stereo_feasibility)
         if stereo_change:
@@ -433,6 +437,30 @@ def _graph_feasibility(
         return False
 
     return True
+
+def _bond_change_feasibility(
+    g1: MolGraph, g2: MolGraph
+) -> Callable[[AtomId, AtomId, _State, _Parameters], bool]:
+    """Bonds between mapped atoms must change in the same way
+    (unchanged, formed, broken or fleeting) in both reaction graphs."""
+    g1_change = {bond: attrs.get("reaction")
+                 for bond, attrs in g1.bonds_with_attributes.items()}
+    g2_change = {bond: attrs.get("reaction")
+                 for bond, attrs in g2.bonds_with_attributes.items()}
+
+    def feasibility(
+        u: AtomId, v: AtomId, state: _State, params: _Parameters
+    ) -> bool:
+        mapping = state.mapping
+        for n in params.g1_nbrhd[u]:
+            if n in mapping and n != u:
+                bond2 = frozenset((v, mapping[n]))
+                if (bond2 not in g2_change
+                    or g1_change[frozenset((u, n))] != g2_change[bond2]):
+                    return False
+        return True
+
+    return feasibility
 
 def _subgraph_feasibility(
     u: AtomId, v: AtomId, state: _State, params: _Parameters
